@@ -231,13 +231,22 @@ def k6py(ctx):
             ok = True
     else:
         # two-step build: the step that runs last must select the requested namespace only
-        last = None
+        steps = []
         for b in body:
             for n in ast.walk(b):
                 if isinstance(n, ast.DictComp) or (isinstance(n, ast.Call) and n in updates):
-                    last = n
+                    steps.append(n)
+        steps.sort(key=lambda n: (n.lineno, n.col_offset))
+        # an update(<comprehension>) and its argument are one step: keep the outermost
+        last = None
+        for n in steps:
+            if isinstance(n, ast.Call):
+                last = n
+            elif last is None or not any(x is n for x in ast.walk(last)):
+                last = n
         text = src(last) if last is not None else ''
-        ok = bool(re.search(r"namespace == namespace|\.namespace == namespace|!= ''", text))
+        ok = bool(re.search(r"\.namespace == namespace\b", text)) and \
+            not re.search(r"namespace in |\.namespace == ''", text)
         why = 'last step of the listing is `%s`' % text[:120]
     ctx.check('registry_get/listing-namespace-wins', ok,
               'listing branch: an entry of the requested namespace always replaces the global '
